@@ -176,7 +176,7 @@ func getsOfDecode(f *hc.Facts, fn string) (string, string, bool) {
 			}
 			out = append(out, fmt.Sprintf("⟨%s, %s⟩", w, fl))
 		case *ast.AssignStmt:
-			if f.Src(s) != "e.MessageDataWithPadding = b.Buf" {
+			if src := f.Src(s); src != "e.MessageDataWithPadding = b.Buf" && src != "e.MessageDataWithPadding = append(e.MessageDataWithPadding[:0], b.Buf...)" {
 				return "", "", false
 			}
 			tail = true
@@ -218,11 +218,12 @@ func FactsC04Layout(f *hc.Facts) {
 	}
 	s2, cond2, ok2 := getsOfDecode(f, "EncryptedMessageData.Decode")
 	// Decode copies the rest (`append(e.MessageDataWithPadding[:0], b.Buf...)`): same reads expected
-	_ = cond2
-	if !ok2 {
-		s2 = ""
+	if ok2 {
+		f.Raw("def dataDecodeCopy : List Put := " + s2 + " -- EncryptedMessageData.Decode (copying), then MessageDataWithPadding = copy of the rest")
+		f.Bool("dataLenCheckedCopy", cond2 == "int(e.MessageDataLen) > len(e.MessageDataWithPadding)", "Decode rejects MessageDataLen > len(rest): "+cond2)
+	} else {
+		f.Missing("dataDecodeCopy", "EncryptedMessageData.Decode: unexpected shape")
 	}
-	_ = s2
 	// EncryptedMessage framing
 	kid, mk := 0, 0
 	okF := false
